@@ -521,11 +521,24 @@ Qed.
 Close Scope Z_scope.
 
 (* B5: a[:, n] with an ndarray n *)
-Definition open_nd_statement : Prop :=
+(* repaired source: NumPy's block for every int array / mask *)
+Theorem open_nd_refines rows M n w : Forall2 Rv rows M -> Forall (fun c => length c = w) rows -> valid_index w n ->
+  match n with IList _ | IMask _ => True | _ => False end ->
+  exists B B', arrF_get_open_nd false rows n = GDense2F B /\ np_get_block M IOpen n = Ok B' /\ Forall2 (Forall2 Qeq) B B' /\
+               length B = length rows.
+Proof.
+  intros H Hw Hv Hn. cbn [arrF_get_open_nd].
+  destruct (get_block_history_refines rows M IOpen n w H) as (B & B' & E1 & E2 & R & L); auto.
+  - destruct n; try contradiction; reflexivity.
+  - exact I.
+  - exists B, B'. repeat split; auto. rewrite L. cbn. apply seq_length.
+Qed.
+(* unrepaired source *)
+Definition open_nd_legacy_statement : Prop :=
   forall rows M n w, Forall2 Rv rows M -> Forall (fun c => length c = w) rows -> valid_index w n ->
     match n with IList _ | IMask _ => True | _ => False end ->
-    exists B B', arrF_get_open_nd rows n = GDense2F B /\ np_get_block M IOpen n = Ok B' /\ Forall2 (Forall2 Qeq) B B'.
-Theorem open_nd_refuted : ~ open_nd_statement.
+    exists B B', arrF_get_open_nd true rows n = GDense2F B /\ np_get_block M IOpen n = Ok B' /\ Forall2 (Forall2 Qeq) B B'.
+Theorem open_nd_legacy_refuted : ~ open_nd_legacy_statement.
 Proof.
   intros H. destruct (H [of_dense [1; 2]] [[1; 2]] (IList [0; 1]%nat) 2%nat) as (B & B' & E & _).
   - constructor; [apply Rv_of_dense|constructor].
@@ -533,19 +546,4 @@ Proof.
   - repeat constructor.
   - exact I.
   - vm_compute in E. discriminate E.
-Qed.
-(* with exactly one (or no) element the comparison is falsy and the block is NumPy's *)
-Theorem open_nd_short rows M n w : Forall2 Rv rows M -> Forall (fun c => length c = w) rows -> valid_index w n ->
-  match n with IList l => (length l <= 1)%nat | IMask mk => (length mk <= 1)%nat | _ => False end ->
-  exists B B', arrF_get_open_nd rows n = GDense2F B /\ np_get_block M IOpen n = Ok B' /\ Forall2 (Forall2 Qeq) B B'.
-Proof.
-  intros H Hw Hv Hn.
-  assert (E : arrF_get_open_nd rows n = arrF_get rows (XPair IOpen n)).
-  { destruct n as [| |l|mk| |]; try contradiction; cbn [arrF_get_open_nd];
-      match goal with |- (if Nat.leb 2 ?k then _ else _) = _ => assert (L : Nat.leb 2 k = false) by (apply Nat.leb_gt; lia); now rewrite L end. }
-  rewrite E.
-  destruct (get_block_history_refines rows M IOpen n w H) as (B & B' & E1 & E2 & R & _); auto.
-  - destruct n; try contradiction; reflexivity.
-  - exact I.
-  - eauto.
 Qed.
